@@ -295,7 +295,11 @@ def _flatcheck(ck, prog):
         lhs, rhs, op = rhs, lhs, {"LtE": "GtE", "Lt": "Gt", "GtE": "LtE", "Gt": "Lt"}.get(op, op)
     if lhs == "Hlocal":
         ck.shape(rhs.replace(" ", "") in ("self.flatcrit*np.mean(Hlocal)", "np.mean(Hlocal)*self.flatcrit"), "__run_flatcheck: cross-multiplied flatness test", f.loc(fl[0]))
-        lhs, rhs = ratio_forms[0], "self.flatcrit"
+        # H[b] >= c*mean is NOT H[b]/mean >= c: with an empty local histogram the mean is 0, the quotient is nan (no bin is flat) but 0 >= 0 holds
+        # for every bin (all flat: f is halved and H reset although nothing was sampled)
+        ck.ob("TEMPLATE-flat", construct, False, expected="#{b : Hlocal[b]/mean(Hlocal) >= flatcrit}  (nan, hence not flat, while the local histogram is empty)",
+              found=txt, slot="flatness-count", where=f.loc(fl[0]), note="the cross-multiplied test calls an empty histogram flat")
+        return
     ck.shape(lhs in ratio_forms or not lhs.startswith("Hlocal/"), "__run_flatcheck: bin count relative to a recognised mean form", f.loc(fl[0]))
     ok = lhs in ratio_forms and op == "GtE" and rhs == "self.flatcrit"
     ck.ob("TEMPLATE-flat", construct, ok, expected="#{b : Hlocal[b]/mean(Hlocal) >= flatcrit}", found=txt, slot="flatness-count", where=f.loc(fl[0]))
